@@ -6,7 +6,8 @@
     the operator implementations call their callbacks with, the documented signatures / examples
  2. re-check the obligations of coq/Properties/C03
  3. correspondence, evaluated inside Coq:
-      static : for every converted if / while / for of the generated programs, the block variables the
+      static : for every `del` statement, the statements visit_Delete returned == Delete.lower_delete over the generated table;
+               for every converted if / while / for of the generated programs, the block variables the
                converter computed (captured by wrapping ControlFlowTransformer methods) -> the model's
                emission (names, getter elements, setter targets, arities, order, nouts, option keys)
                must equal what is parsed from the code the converter really produced
@@ -14,7 +15,8 @@
                model's get / set must return what get_state() / set_state();get_state() really returned
  4. property-level oracle on the real code: instrumented if_stmt / while_stmt / for_stmt / if_exp / and_ /
     or_ / not_ (injected through a PyToPy subclass overriding get_extra_locals) check the contract at every
-    dynamic invocation and then delegate to the real operator; a second run emulates a functional
+    dynamic invocation and then delegate to the real operator (with callbacks that read the state again after they ran: the
+    getter must stay total while the operator runs); a second run emulates a functional
     backend for `if` (non-outputs are reset to their initial values) to judge "outputs first".
 """
 import ast
@@ -54,7 +56,8 @@ class Gen(progs.Gen):
 
     def __init__(self, rnd, opts, stream):
         progs.Gen.__init__(self, rnd, opts)
-        self.stream = stream        # 'main' | 'missing' | 'order' | 'scopes'
+        self.stream = stream        # 'main' | 'missing' | 'order' | 'scopes' | 'deletes'
+        self.kill_log = []          # names deleted so far (stream 'deletes')
 
     def composite(self):
         pool = ["o.v", "d['k']", "o.u", "d[0]"]
@@ -62,9 +65,49 @@ class Gen(progs.Gen):
             pool += ["o.w", "d['j']", "o.w", "d['j']"]
         return self.r.choice(pool)
 
+    # items of dicts / attributes only: a list item whose index is out of range makes the getter raise IndexError (ldu does
+    # not catch it) -- lists are outside the modelled class (StateModel.v), see the assumptions of the run
+    DEL_COMPOSITES = ["d['k']", 'd[0]', 'o.u', 'o.v', 'e[0]', 'e[1]', 'e[2]', 'e[3]']
+
+    def delete(self, ind, defined):
+        """one `del` statement: a name, several names, a composite, or names and composites MIXED in either order (every
+        name target must stay bound -- to the Undefined placeholder -- whatever else the statement deletes)"""
+        r = self.r
+        names = sorted(defined & set(self.vars)) or sorted(defined & set(progs.PARAMS))
+        shape = r.choice(['name', 'names', 'mixed', 'mixed', 'mixed', 'composite'])
+        if shape == 'composite' or not names:
+            tg = [r.choice(self.DEL_COMPOSITES)]
+        else:
+            k = 1 if shape == 'name' else r.randint(1 if shape == 'mixed' else 2, 2)
+            tg = r.sample(names, min(k, len(names)))
+            if shape == 'mixed':
+                for t in r.sample(self.DEL_COMPOSITES, r.randint(1, 2)):
+                    if t not in tg:
+                        tg.insert(r.randint(0, len(tg)), t)
+        self.emit(ind, 'del %s' % ', '.join(tg))
+        self.kill_log += [t for t in tg if t.isidentifier()]
+        return defined - set(tg)
+
     def stmt(self, ind, defined, depth, in_loop, ihf):
+        n0 = len(self.kill_log)
+        out, falls = self.stmt1(ind, defined, depth, in_loop, ihf)
+        # a name deleted somewhere inside a compound statement is not definitely bound after it
+        return out - set(self.kill_log[n0:]), falls
+
+    def stmt1(self, ind, defined, depth, in_loop, ihf):
         r = self.r
         c = r.random()
+        if self.stream == 'deletes' and c < 0.26 and depth > 0:
+            # inside a converted block the names are closure cells shared with the generated state functions
+            self.budget -= 1
+            return self.delete(ind, defined), True
+        if self.stream == 'deletes' and c < 0.40 and depth == 0 and len(self.lines) > 3:
+            # a later conditional that carries a (possibly deleted) name in its state
+            self.budget -= 1
+            v = r.choice(self.vars)
+            self.emit(ind, 'if %s:' % self.dexpr(defined))
+            self.emit(ind + 1, '%s = %s' % (v, self.texpr(defined)))
+            return defined, True
         if c < 0.22:
             self.budget -= 1
             t = self.composite()
@@ -124,9 +167,17 @@ def gen_program(rnd, stream):
         g.emit(1, 'x = 0')
         g.emit(1, 'y = 1')
         defined = {'a', 'b', 'c', 'x', 'y'}
+    elif stream == 'deletes':
+        for v in g.vars:
+            g.emit(1, '%s = T(%d)' % (v, g.key()))
+        defined = {'a', 'b', 'c'} | set(g.vars)
     else:
         defined = {'a', 'b', 'c'}
     defined = g.block(1, defined, 0, False, False, minlen=2)
+    if stream == 'deletes':
+        # every variable is read at the very end (possibly unbound by then: the run is over), so all of them are live
+        # throughout and every statement that binds or deletes one carries it in its state
+        defined = defined | set(g.vars)
     reads = ''.join(', ' + v for v in sorted(defined & set(g.vars)))
     g.emit(1, 'return T(%d%s)' % (g.key(), reads))
     return '\n'.join(g.lines) + '\n'
@@ -240,6 +291,10 @@ CORPUS = [
     ('scopes', "def f(a, b, c, m, o, d, e):\n    x = T(1)\n    z = 0\n    class C1:\n        global x\n        x = 5\n    def g2():\n        nonlocal z\n        z = z + T(2)\n        return T(3)\n    if D(4):\n        x = x + g2()\n        z = z + 1\n    while D(6):\n        z = z + g2()\n    return T(5, x, z)\n"),
     ('tries', "def f(a, b, c, m, o, d, e):\n    x = T(1, a)\n    try:\n        try:\n            if D(2):\n                x = T(3, x)\n            raise E1()\n        except E0:\n            x = T(4)\n        x = T(5)\n    except E1:\n        return T(6, x)\n    return T(7, x)\n"),
     ('closures', "def f(a, b, c, m, o, d, e):\n    x = T(1, a)\n    def g2():\n        return T(3, x)\n    if D(4):\n        x = T(5, a)\n    x = g2() * 10\n    return T(6, x)\n"),
+    # `del` inside converted blocks: a name alone, names and composites in one statement (either order), in a branch /
+    # in a loop body; later statements carry the (rebound-to-Undefined) names in their state
+    ('deletes', "def f(a, b, c, m, o, d, e):\n    x = T(1)\n    y = T(2)\n    if D(3):\n        del x\n    else:\n        del m[0], y\n    if D(4):\n        x = T(5)\n    if D(6):\n        y = T(7)\n    return T(8, x, y)\n"),
+    ('deletes', "def f(a, b, c, m, o, d, e):\n    x = T(1)\n    y = T(2)\n    while D(3):\n        if D(4):\n            del x, d['k'], y\n        else:\n            x = T(5)\n    for z in L(6):\n        del o.u, z\n    return T(7, x, y)\n"),
     ('missing', "def f(a, b, c, m, o, d, e):\n    if D(1):\n        d['j'] = T(2)\n    if D(3):\n        o.w = T(4)\n    return T(5)\n"),
     ('order', "def f(a, b, c, m, o, d, e):\n    x = 0\n    while D(1):\n        e[x] = T(2, x)\n        x = x + 1\n    return T(3, x)\n"),
 ]
@@ -292,7 +347,7 @@ class Sentinel(dict):
 
 
 def fresh_args():
-    return [1, 2, 3, [5, 6], Obj(), {'k': 4, 0: 1}, {0: 10, 1: 11, 2: 12, 3: 13}]
+    return [1, 2, 3, [5, 6, 7, 8], Obj(), {'k': 4, 0: 1}, {0: 10, 1: 11, 2: 12, 3: 13}]
 
 
 # ======================================================================================= monitor
@@ -318,6 +373,7 @@ class Monitor(object):
         self.dyn_budget = 0
         self.skipped_alias = 0
         self.write_read_checked = 0
+        self.rereads = 0
         self.opts_checked = 0
         self.opts_unidentified = 0
         self.Undefined = ag.Undefined
@@ -611,6 +667,46 @@ class Monitor(object):
             self.fail('%s: harness could not restore the caller\'s objects' % op, detail)
         return g1
 
+    # ---- the state stays readable while the operator runs
+    def reread(self, op, frame, get_state, names, detail, when):
+        """What a staging operator does after it ran a callback (collect the outputs of a branch, the loop variables after
+        an iteration): read the state again.  The getter must still return one value per symbol name, twice the same."""
+        if not (isinstance(names, tuple) and self.arity(get_state) == 0):
+            return
+        self.rereads += 1
+        try:
+            g1 = get_state()
+            g2 = get_state()
+        except Exception as e:  # noqa
+            cls = KNOWN_PREV_ITER if self.is_prev_iteration_local(e, frame, names) else (
+                KNOWN_TRY_DEF if self.is_defined_only_in_earlier_try(e, frame, names) else None)
+            self.fail('%s: get_state() raised %s when the state is read again %s' % (op, type(e).__name__, when),
+                      dict(detail, error=str(e), when=when), cls)
+            return
+        if not (isinstance(g1, tuple) and len(g1) == len(names)):
+            self.fail('%s: get_state() returned %d values for %d symbol names %s'
+                      % (op, len(g1) if isinstance(g1, tuple) else -1, len(names), when), dict(detail, when=when))
+        elif not self.same_tuple(g1, g2):
+            self.fail('%s: two consecutive get_state() calls return different tuples %s' % (op, when), dict(detail, when=when))
+
+    def rereading(self, op, frame, f, get_state, names, detail, when):
+        """callback f followed by a re-read of the state (same parameters as f: the operator calls it as it calls f)"""
+        mon = self
+        if f is None or not callable(f):
+            return f
+        if self.arity(f) == 1:
+            def cb1(x):
+                r = f(x)
+                mon.reread(op, frame, get_state, names, detail, when)
+                return r
+            return cb1
+
+        def cb0():
+            r = f()
+            mon.reread(op, frame, get_state, names, detail, when)
+            return r
+        return cb0
+
     # ---- snapshots for the model
     def model_snapshot(self, names, frame):
         try:
@@ -710,7 +806,9 @@ class Monitor(object):
             if mon.mode == 'check':
                 mon.check_callbacks('if_stmt', {'body': (body, 0), 'orelse': (orelse, 0)}, detail)
                 mon.check_state('if_stmt', frame, get_state, set_state, symbol_names, nouts, detail)
-                return ag.if_stmt(cond, body, orelse, get_state, set_state, symbol_names, nouts)
+                return ag.if_stmt(cond, mon.rereading('if_stmt', frame, body, get_state, symbol_names, detail, 'after the branch ran'),
+                                  mon.rereading('if_stmt', frame, orelse, get_state, symbol_names, detail, 'after the branch ran'),
+                                  get_state, set_state, symbol_names, nouts)
             init = get_state()
             res = ag.if_stmt(cond, body, orelse, get_state, set_state, symbol_names, nouts)
             new = get_state()
@@ -732,6 +830,7 @@ class Monitor(object):
                 mon.check_callbacks('while_stmt', {'test': (test, 0), 'body': (body, 0)}, detail)
                 mon.check_state('while_stmt', frame, get_state, set_state, symbol_names, None, detail)
                 mon.check_opts('while_stmt', frame, opts, None, detail)
+                body = mon.rereading('while_stmt', frame, body, get_state, symbol_names, detail, 'after an iteration')
             return ag.while_stmt(test, body, get_state, set_state, symbol_names, opts)
 
         def for_stmt(iter_, extra_test, body, get_state, set_state, symbol_names, opts):
@@ -745,6 +844,7 @@ class Monitor(object):
                 mon.check_callbacks('for_stmt', {'extra_test': (extra_test, 0), 'body': (body, 1)}, detail)
                 mon.check_state('for_stmt', frame, get_state, set_state, symbol_names, None, detail)
                 mon.check_opts('for_stmt', frame, opts, iter_, detail)
+                body = mon.rereading('for_stmt', frame, body, get_state, symbol_names, detail, 'after an iteration')
             return ag.for_stmt(iter_, extra_test, body, get_state, set_state, symbol_names, opts)
 
         def if_exp(cond, if_true, if_false, expr_repr):
@@ -898,6 +998,44 @@ class _Conv(object):
         return vlib.coq_list(out)
 
 
+def _strip_ld(e):
+    """generated expression with the reads of names wrapped (ag__.ld(o).u) -> the expression over plain names"""
+    class S(ast.NodeTransformer):
+        def visit_Call(self, n):
+            if ast.unparse(n.func) == 'ag__.ld' and len(n.args) == 1 and isinstance(n.args[0], ast.Name) and not n.keywords:
+                return ast.Name(id=n.args[0].id, ctx=ast.Load())
+            return self.generic_visit(n)
+    return S().visit(ast.parse(ast.unparse(e), mode='eval').body)
+
+
+def export_target(e):
+    """a `del` target -> Gallina target term"""
+    e = _strip_ld(e)
+    if isinstance(e, ast.Name):
+        return 'TName %s' % vlib.coq_str(e.id)
+    return 'TComp %s' % export_qn_expr(e)
+
+
+def export_emitted_delete(result):
+    """what visit_Delete returned (the node itself or a list of statements) -> Gallina list of dstmt"""
+    out = []
+    for st in (result if isinstance(result, list) else [result]):
+        st = ast.parse(ast.unparse(st)).body[0]
+        if isinstance(st, ast.Delete):
+            out.append('DDel %s' % vlib.coq_list([export_target(t) for t in st.targets]))
+        elif (isinstance(st, ast.Expr) and isinstance(st.value, ast.Call) and ast.unparse(st.value.func) == 'ag__.ld'
+              and len(st.value.args) == 1 and isinstance(st.value.args[0], ast.Name) and not st.value.keywords):
+            out.append('DRead %s' % vlib.coq_str(st.value.args[0].id))
+        elif (isinstance(st, ast.Assign) and len(st.targets) == 1 and isinstance(st.targets[0], ast.Name)
+              and isinstance(st.value, ast.Call) and ast.unparse(st.value.func) == 'ag__.Undefined'
+              and len(st.value.args) == 1 and isinstance(st.value.args[0], ast.Constant)
+              and isinstance(st.value.args[0].value, str) and not st.value.keywords):
+            out.append('DBindUndef %s %s' % (vlib.coq_str(st.targets[0].id), vlib.coq_str(st.value.args[0].value)))
+        else:
+            raise _Unexportable('statement emitted for a del: ' + ast.unparse(st)[:80])
+    return vlib.coq_list(out)
+
+
 def parse_new_nodes(new_nodes, op_params):
     """The statements ControlFlowTransformer.visit_If/While/For returned -> what they contain."""
     call = new_nodes[-1]
@@ -974,6 +1112,8 @@ class Harness(object):
         base = api.PyToPy().get_extra_locals()['ag__']
         self.ag = base
         self.static_cases = []
+        self.del_cases = []          # (Gallina del_case fields, info) for every `del` statement the variables pass saw
+        self.del_unexported = 0
         self.static_unexported = 0
         self.counter = 0
         self.tmp = vlib.ensure_dir(os.path.join(vlib.BUILD, 'tmp', str(os.getpid())))
@@ -1078,6 +1218,22 @@ class Harness(object):
             T.visit_If = mk_visit('visit_If', 'KIf')
             T.visit_While = mk_visit('visit_While', 'KWhile')
             T.visit_For = mk_visit('visit_For', 'KFor')
+        from malt.converters import variables as variables_pass
+        VT = variables_pass.VariableAccessTransformer
+        saved_del = VT.__dict__.get('visit_Delete')
+        if capture and saved_del is not None:
+            def visit_delete(self_, node):
+                before = [ast.unparse(t) for t in node.targets]
+                result = saved_del(self_, node)
+                try:
+                    tg = vlib.coq_list([export_target(ast.parse(t, mode='eval').body) for t in before])
+                    h.del_cases.append(('dl_targets := %s; dl_emitted := %s' % (tg, export_emitted_delete(result)),
+                                        {'del': 'del ' + ', '.join(before),
+                                         'emitted': [ast.unparse(x) for x in (result if isinstance(result, list) else [result])]}))
+                except _Unexportable:
+                    h.del_unexported += 1
+                return result
+            VT.visit_Delete = visit_delete
         try:
             p = self.new_transpiler(monitor)
             ctx = self.converter.ProgramContext(options=self.converter.ConversionOptions(
@@ -1086,6 +1242,8 @@ class Harness(object):
         finally:
             for k, v in saved.items():
                 setattr(T, k, v)
+            if saved_del is not None:
+                VT.visit_Delete = saved_del
         return tf, source_map
 
     def record_static(self, kind, rec, new_nodes, target, anno):
@@ -1166,7 +1324,9 @@ def is_enclosing_for_target(src, module_line, var):
         return False
     line = module_line - SHIFT
     for n in ast.walk(ast.parse(src)):
-        if isinstance(n, ast.For) and (n.lineno < line <= n.end_lineno or n.lineno > line):
+        # n.lineno == line: an `if` attributed to the line of the for statement itself is a guard synthesised inside that
+        # loop's body (`if not do_return:` around the rest of the body after a lowered return)
+        if isinstance(n, ast.For) and (n.lineno <= line <= n.end_lineno or n.lineno > line):
             if var in {x.id for x in ast.walk(n.target) if isinstance(x, ast.Name)}:
                 return True
     return False
@@ -1295,9 +1455,12 @@ def check(run):
     run.rule = ('programs: hand corpus + seeded progs.Gen extended with nested defs / class bodies declaring a local of the '
                 'enclosing function global / nonlocal (stream "scopes" and main), nested tries with typed handlers and raises that only '
                 'the outer handler catches (stream "tries"), local closures over a state variable called by the statement that rebinds it '
-                '(stream "closures"), composite state (o.v, d[\'k\'], d[0]; stream '
+                '(stream "closures"), `del` statements inside branches / loop bodies deleting names, composites and both mixed in one '
+                'statement, every variable read at the end (stream "deletes"; each del statement is also a static case of the model '
+                'of visit_Delete), composite state (o.v, d[\'k\'], d[0]; stream '
                 '"missing": o.w / d[\'j\'] unset at entry; stream "order": e[x] with x reassigned) and set_loop_options '
-                'directives as first loop statement; each converted with instrumented operators and run under several '
+                'directives as first loop statement; each converted with instrumented operators (contract checked on entry; the '
+                'state is read again after every branch / iteration, as a staging operator does) and run under several '
                 'decision vectors; evaluations = dynamic operator invocations checked + static cases + dynamic model cases; '
                 'distinct non-trivial = distinct (operator, symbol_names, nouts/opts keys) seen at run time')
     try:
@@ -1314,8 +1477,8 @@ def check(run):
 
     rnd = random.Random(run.seed)
     h = Harness(run)
-    nprog = ({'main': 290, 'missing': 50, 'order': 50, 'scopes': 60, 'tries': 40, 'closures': 40} if not thorough else
-             {'main': 1200, 'missing': 200, 'order': 200, 'scopes': 250, 'tries': 250, 'closures': 250})
+    nprog = ({'main': 290, 'missing': 50, 'order': 50, 'scopes': 60, 'tries': 40, 'closures': 40, 'deletes': 60} if not thorough else
+             {'main': 1200, 'missing': 200, 'order': 200, 'scopes': 250, 'tries': 250, 'closures': 250, 'deletes': 300})
     nvec = 3 if not thorough else 5
     programs = list(CORPUS) + corpus_files()
     for stream in ('main', 'missing', 'order', 'scopes'):
@@ -1325,12 +1488,14 @@ def check(run):
         programs.append(('tries', gen_nested_try(rnd)))
     for _ in range(nprog['closures']):
         programs.append(('closures', gen_closure(rnd)))
+    for _ in range(nprog['deletes']):          # appended last: the random streams of the other programs stay what they were
+        programs.append(('deletes', gen_program(rnd, 'deletes')))
     failures = []      # (what, replay dict, classify)
     scope_checked = {'functions': 0, 'statements': 0, 'failures': 0}
     conv_errors = 0
     dyn_all = []
     kinds_total = {}
-    checked = {'write_read': 0, 'alias_skipped': 0, 'opts': 0, 'opts_unidentified': 0, 'functional_runs': 0}
+    checked = {'write_read': 0, 'rereads_after_callbacks': 0, 'alias_skipped': 0, 'opts': 0, 'opts_unidentified': 0, 'functional_runs': 0}
     try:
         for pi, (stream, src) in enumerate(programs):
             monitor = Monitor(h.ag, h.op_params)
@@ -1382,6 +1547,7 @@ def check(run):
                 kinds_total[k] = kinds_total.get(k, 0) + v
             run.count(monitor.checked_invocations)
             checked['write_read'] += monitor.write_read_checked
+            checked['rereads_after_callbacks'] += monitor.rereads
             checked['alias_skipped'] += monitor.skipped_alias
             checked['opts'] += monitor.opts_checked
             checked['opts_unidentified'] += monitor.opts_unidentified
@@ -1400,6 +1566,8 @@ def check(run):
     run.extra['conversion_errors'] = conv_errors
     run.extra['static_cases'] = len(h.static_cases)
     run.extra['static_unexported'] = h.static_unexported
+    run.extra['del_statement_cases'] = len(h.del_cases)
+    run.extra['del_statements_unexported'] = h.del_unexported
     run.extra['dynamic_model_cases'] = len(dyn_all)
 
     # ---- 3. correspondence inside Coq
@@ -1407,7 +1575,7 @@ def check(run):
     if tie_ok:
         header = ['From Coq Require Import List String Bool ZArith.', 'Import ListNotations.',
                   'Require Import MV.Contract.ContractSyntax MV.Contract.StateModel MV.Contract.Emit MV.Contract.BlockVars '
-                  'MV.Contract.ContractCheck MV.Generated.C03_gen.', 'Local Open Scope string_scope.']
+                  'MV.Contract.Delete MV.Contract.ContractCheck MV.Generated.C03_gen.', 'Local Open Scope string_scope.']
         shards = []
         cs = [t for t, _ in h.static_cases]
         for i in range(0, len(cs), 300):
@@ -1418,6 +1586,12 @@ def check(run):
                        'dc_get_after := %s |}' % (i, c[0], c[1], c[2], c[3], c[4], c[5]))
         for i in range(0, len(dts), 300):
             shards.append(('dyn%d' % (i // 300), 'dyn_case', 'failing_dyn', dts[i:i + 300]))
+
+        dls = ['{| dl_id := %d; %s |}' % (i, t) for i, (t, _) in enumerate(h.del_cases)]
+        for i in range(0, len(dls), 400):
+            shards.append(('del%d' % (i // 400), 'del_case', 'failing_del', dls[i:i + 400]))
+        if not dls and any('del ' in src for _, src in programs) and conv_errors < len(programs) // 3:
+            corr_bad = 'no `del` statement of the generated programs reached VariableAccessTransformer.visit_Delete'
 
         def one(sh):
             name, ty, fn, items = sh
@@ -1443,13 +1617,16 @@ def check(run):
                 if name.startswith('static'):
                     info = h.static_cases[bad[0]][1]
                     corr_bad = 'static correspondence: model emission differs from the generated code for %s' % json.dumps(info)[:1800]
+                elif name.startswith('del'):
+                    corr_bad = ('static correspondence: the statements the model (Delete.lower_delete over delete_rule_gen) emits for a '
+                                '`del` differ from what visit_Delete returned: %s' % json.dumps(h.del_cases[bad[0]][1])[:1800])
                 else:
                     c, src = dyn_all[bad[0]]
                     corr_bad = ('dynamic correspondence: model get/set differs from CPython for state variables %s '
                                 '(get_state -> %s, after set_state(%s) -> %s) in program\n%s' % (c[6], c[3], c[4], c[5], src))
                 break
-        run.count(len(cs) + len(dts))
-        run.extra['traces_validated_against_impl'] = len(cs) + len(dts)
+        run.count(len(cs) + len(dts) + len(dls))
+        run.extra['traces_validated_against_impl'] = len(cs) + len(dts) + len(dls)
 
     # ---- 5. verdict
     seen = set()
@@ -1476,7 +1653,11 @@ def check(run):
                       found_input=False)
     run.assumptions += [
         'heap objects of the model are plain records (instance __dict__ / dict): look-ups have no side effects; failing '
-        'look-ups are KeyError/AttributeError; lists and properties are exercised by the oracle only',
+        'look-ups are KeyError/AttributeError; lists and properties are exercised by the oracle only (list items are not '
+        'among the deleted composites: ldu does not catch IndexError, so a list-item state variable whose index is out of range '
+        'makes get_state() raise)',
+        'a `del` is the only statement that unbinds a name (the implicit unbinding at the end of `except E as n:` is not modelled; the '
+        'oracle re-reads the state after every branch / iteration)',
         'templates.replace splices a list bound to a placeholder standing alone in a tuple display / assignment target '
         '(validated by the static correspondence against the code really generated)',
         'Python\'s sorted() returns a permutation ordered by the key (modelled by insertion sort; order compared with the '
